@@ -154,6 +154,11 @@ func Assume(c bool) {
 }
 
 func Assert(c bool, label string) {
+	if strings.HasPrefix(label, "mon:") {
+		// obligations over the engine's event monitor (lock / journal / allocator events) have no native
+		// observable: Events() is empty here
+		return
+	}
 	if !c {
 		mu.Lock()
 		Failed = append(Failed, label)
@@ -321,18 +326,31 @@ type tester interface {
 	Fatalf(format string, args ...interface{})
 }
 
-// RunReplay runs the harness named in the replay file natively and prints one line
-// "REPLAY-RESULT kind=<ok|assert|panic|blocked|assume> detail=<...>".
-func RunReplay(fns map[string]func()) {
-	load()
+func resetState(path string) {
+	mu.Lock()
+	defer mu.Unlock()
+	rp = &replayFile{Model: map[string]string{}}
+	b, err := os.ReadFile(path)
+	if err != nil {
+		panic(err)
+	}
+	if err := json.Unmarshal(b, rp); err != nil {
+		panic(err)
+	}
+	counts = map[string]int{}
+	choiceIx = 0
+	Failed = nil
+	Covered = nil
+}
+
+func runOne(fns map[string]func()) string {
 	name := rp.Harness
 	if i := strings.LastIndex(name, "."); i >= 0 {
 		name = name[i+1:]
 	}
 	f, ok := fns[name]
 	if !ok {
-		fmt.Printf("REPLAY-RESULT kind=error detail=no harness %s in this package\n", name)
-		return
+		return "kind=error detail=no harness " + name + " in this package"
 	}
 	done := make(chan string, 1)
 	go func() {
@@ -357,8 +375,30 @@ func RunReplay(fns map[string]func()) {
 	}()
 	select {
 	case r := <-done:
-		fmt.Println("REPLAY-RESULT " + r)
+		return r
 	case <-time.After(20 * time.Second):
-		fmt.Println("REPLAY-RESULT kind=blocked detail=harness did not return within 20s")
+		return "kind=blocked detail=harness did not return within 20s"
 	}
+}
+
+// RunReplay runs the harness named in the replay file natively and prints one line
+// "REPLAY-RESULT kind=<ok|assert|panic|blocked|assume> detail=<...>". With VERIF_REPLAY_LIST (a file
+// listing replay files, one per line) every listed replay is run and reported with its index.
+func RunReplay(fns map[string]func()) {
+	if lst := os.Getenv("VERIF_REPLAY_LIST"); lst != "" {
+		b, err := os.ReadFile(lst)
+		if err != nil {
+			panic(err)
+		}
+		for i, p := range strings.Split(strings.TrimSpace(string(b)), "\n") {
+			if p == "" {
+				continue
+			}
+			resetState(p)
+			fmt.Printf("REPLAY-RESULT id=%d %s\n", i, runOne(fns))
+		}
+		return
+	}
+	load()
+	fmt.Println("REPLAY-RESULT " + runOne(fns))
 }
